@@ -492,7 +492,8 @@ func parseTrailer(t *protocol.Trailer, buf []byte) (int, error) {
 	if buf[0] == '0' {
 		skip := len(bytestr.StrCRLF) + 1
 		if len(buf) < skip {
-			return 0, io.EOF
+			// not an error: the rest of the line has not been received yet
+			return 0, errs.ErrNeedMore
 		}
 		buf = buf[skip:]
 	}
